@@ -231,7 +231,7 @@ func newWorldFor(o cworld.Opts, variant int) *world {
 		}
 		kt := keytab.New()
 		if err := kt.Unmarshal(keytabfmt.Write(2, items)); err != nil {
-			engine.Fatal("extended client keytab: %v", err)
+			engine.FailValid("keytab.Unmarshal(client keytab)", err)
 		}
 		sets := []func(*client.Settings){client.DisablePAFXFAST(!o.FAST), client.Logger(log.New(&x.clLog, "", 0))}
 		if o.PreAuth == "assumed" {
@@ -265,7 +265,7 @@ func newWorldFor(o cworld.Opts, variant int) *world {
 	}
 	x.svcKT = keytab.New()
 	if err := x.svcKT.Unmarshal(keytabfmt.Write(2, items)); err != nil {
-		engine.Fatal("service keytab: %v", err)
+		engine.FailValid("keytab.Unmarshal(service keytab)", err)
 	}
 	// kpasswd endpoint
 	h := func(_, _ string, req []byte) []byte { return c04.KpasswdReply(x.w, req) }
